@@ -23,7 +23,7 @@ instance tree = {field: int | tree | [tree]}  (absent optional fields are missin
 import itertools
 import json
 
-from typedpy import Structure, Integer, Array, Set, Map, String, Serializer, Deserializer, mappers, serialize, deserialize_structure
+from typedpy import ImmutableStructure, Structure, Integer, Array, Set, Map, String, Serializer, Deserializer, mappers, serialize, deserialize_structure
 from typedpy.structures import StructMeta
 from typedpy.serialization.mappers import DoNotSerialize
 import sys as _sys
@@ -152,6 +152,10 @@ def gen_class(rng, depth, max_levels, nest_budget, kinds=("one", "one", "arr", "
             fd = {"n": nm, "opt": rng.random() < 0.45, "kind": kind}
             if kind != "int":
                 fd["cls"] = gen_class(rng, depth + 1, 2, nest_budget, kinds)
+                if kind == "set" and _counter[0] % 2 == 0 and len(fd["cls"]["levels"]) == 1:
+                    # items of a Set are hashed when the set is built: every other item class is an ImmutableStructure
+                    # (whatever such an instance keeps in its __dict__ must stay out of the document)
+                    fd["cls"]["immutable"] = True
             fields.append(fd)
         sofar = sofar + fields
         levels.append({"mapper": gen_attr(rng, sofar) if sofar else None, "fields": fields})
@@ -515,7 +519,8 @@ def build_class(cd, registry):
     names = level_names(cd)
     local = {}
     for li, lv in enumerate(cd["levels"]):
-        bases = tuple(local[b] for b in level_bases(cd, li)) or (Structure,)
+        bases = tuple(local[b] for b in level_bases(cd, li)) or (
+            (ImmutableStructure,) if cd.get("immutable") else (Structure,))
         ns = {}
         for f in lv["fields"]:
             if f["kind"] == "int":
@@ -583,6 +588,8 @@ def dump_inst(x, cd, canonical):
         if k in INTERNAL:
             continue
         if k not in by_name:
+            if k.startswith("_"):
+                continue      # bookkeeping the instance keeps for itself: must not show up in the document (oracle)
             raise RuntimeError(f"unexpected attribute {k}")
         pairs.append([k, val(by_name[k], v)])
     return {"o": pairs}
